@@ -5,9 +5,12 @@
    for a merge function that is a pure function of (key, values) obeying the flattening law, whatever
    the configuration — hence wherever spills and chunk merges fall — a run that finishes returns
    exactly the specification's output, whose keys are the strictly ascending distinct inserted keys
-   and whose values are the merge of each key's values in insertion order (C07_spec).  The unstable
-   and the rayon-parallel sort are not modelled (the model sorts stably); they are compared with the
-   model on every generated case under a commutative merge function. *)
+   and whose values are the merge of each key's values in insertion order (C07_spec).
+   C07_any_sort / C07_unstable_sort: the same with the in-memory sort left abstract (gsorter_run sortf is
+   the transcribed sorter with sort_by_key replaced by sortf; Sorter.sorter_run is its instance at the
+   stable insertion sort): any sort returning a sorted permutation gives the specification's output as
+   soon as the merge function does not depend on the order of a key's values — the unstable algorithm
+   and the rayon-parallel variants, whatever their scheduling. *)
 From Coq Require Import Sorting.Permutation.
 From Grenad.model Require Import Base Merger Sorter.
 From Grenad.proofs Require Import SpecProofs.
@@ -63,3 +66,35 @@ Print Assumptions C07_chunk_merge_invisible.
 Example C07_concat_obeys_the_law : forall (k : bytes) (vss : list (list bytes)),
   (fun (_ : bytes) vs => concat vs) k (map ((fun (_ : bytes) vs => concat vs) k) vss) = (fun (_ : bytes) vs => concat vs) k (concat vss).
 Proof. intros k vss. cbn beta. induction vss as [|vs vss IH]; [reflexivity|]. cbn [map concat]. rewrite concat_app, IH. reflexivity. Qed.
+
+(* ================= stable or unstable, sequential or parallel =================
+   the only facts used about the in-memory sort: it returns a permutation of its input that is sorted by
+   key, and the merge function returns the same for a key's values before and after (a stable sort; or
+   any sort with an order-insensitive merge function) *)
+From Coq Require Import Sorting.Permutation.
+From Grenad.proofs Require Import SpecProofs.
+
+Theorem C07_any_sort : forall (f : bytes -> list bytes -> bytes) (mf : mergefn),
+  (forall ord k vs, mf ord k vs = Done (f k vs)) ->
+  (forall k vss, vss <> [] -> Forall (fun vs => vs <> []) vss -> f k (map (f k) vss) = f k (concat vss)) ->
+  forall sortf : list entry -> list entry,
+  (forall l, sorted_leb (sortf l) = true) -> (forall l, Permutation (sortf l) l) ->
+  (forall k l, f k (val_in k (sortf l)) = f k (val_in k l)) ->
+  forall c ins out, gsorter_run sortf c mf ins = Done out -> sorter_spec mf ins = Done out.
+Proof. exact sorter_any_sort. Qed.
+Print Assumptions C07_any_sort.
+
+Theorem C07_unstable_sort : forall (f : bytes -> list bytes -> bytes) (mf : mergefn),
+  (forall ord k vs, mf ord k vs = Done (f k vs)) ->
+  (forall k vss, vss <> [] -> Forall (fun vs => vs <> []) vss -> f k (map (f k) vss) = f k (concat vss)) ->
+  forall sortf : list entry -> list entry,
+  (forall l, sorted_leb (sortf l) = true) -> (forall l, Permutation (sortf l) l) ->
+  (forall k vs vs', Permutation vs vs' -> f k vs = f k vs') ->
+  forall c ins out, gsorter_run sortf c mf ins = Done out -> sorter_spec mf ins = Done out.
+Proof. exact sorter_unstable. Qed.
+Print Assumptions C07_unstable_sort.
+
+(* the transcribed sorter is the instance at the stable insertion sort *)
+Theorem C07_model_is_the_stable_instance : forall c mf ins, sorter_run c mf ins = gsorter_run sort_entries c mf ins.
+Proof. exact gsorter_run_stable. Qed.
+Print Assumptions C07_model_is_the_stable_instance.
